@@ -501,6 +501,7 @@ func genStrings(w *lib.Writer, r *lib.Rand, tier string) {
 			}
 		}
 	}
+	genStringBoundaries(w, r.Fork(), tier)
 }
 
 func replay(w *lib.Writer, path string) {
